@@ -26,6 +26,20 @@ func specDefault(t *rapid.T) WorldSpec {
 	return spec
 }
 
+// withBurner: in half of the worlds the burner module is live (its epoch is one the chain really runs) and two or three of the
+// funded denoms have bank metadata, so that what users send to the zero address is really burnt.
+func withBurner(base func(*rapid.T) WorldSpec) func(*rapid.T) WorldSpec {
+	return func(t *rapid.T) WorldSpec {
+		spec := base(t)
+		if UniformDraw(t, "burner", 2) == 1 {
+			spec.Scenario.BurnEpoch = []string{"five_minutes", "five_minutes", "ten_days"}[UniformDraw(t, "burnepoch", 3)]
+			sets := [][]string{{paramtypes.Elys}, {paramtypes.Elys, paramtypes.ATOM}, {paramtypes.Elys, paramtypes.ATOM, "uusdt"}}
+			spec.Scenario.BurnDenoms = sets[UniformDraw(t, "burndenoms", len(sets))]
+		}
+		return spec
+	}
+}
+
 func combine(checks ...func(*History, *BlockRecord) []Violation) func(*History, *BlockRecord) []Violation {
 	return func(h *History, b *BlockRecord) []Violation {
 		var out []Violation
@@ -259,7 +273,7 @@ func allWeights() map[string]int {
 }
 
 var ProfileC15 = &Profile{
-	ID: "C15", Name: "everything", MinBlocks: 8, MaxBlocks: 50, MaxTxs: 6, Spec: specDefault, Check: CheckC15, Weights: allWeights(),
+	ID: "C15", Name: "everything", MinBlocks: 8, MaxBlocks: 50, MaxTxs: 6, Spec: withBurner(specDefault), Check: CheckC15, Weights: withWeights(allWeights(), map[string]int{"bank.send_to_burn": 5}),
 	Rule: "history with >=30 successful txs from >=5 modules and >=1 block gap >= 1 day (epoch boundary)",
 	NonTrivial: func(h *History) bool {
 		mods := map[string]bool{}
@@ -361,7 +375,7 @@ func specFaulty(t *rapid.T) WorldSpec {
 }
 
 var ProfileC18 = &Profile{
-	ID: "C18", Name: "faults", MinBlocks: 8, MaxBlocks: 50, MaxTxs: 6, Spec: specFaulty, Weights: withWeights(allWeights(), map[string]int{"oracle.refresh": 12, "oracle.feed_price": 8}),
+	ID: "C18", Name: "faults", MinBlocks: 8, MaxBlocks: 50, MaxTxs: 6, Spec: withBurner(specFaulty), Weights: withWeights(allWeights(), map[string]int{"oracle.refresh": 12, "oracle.feed_price": 8}),
 	BlockFailureIsViolation: true, VaryFees: true,
 	Check: CheckC18,
 	Gaps:  []time.Duration{time.Second, 5 * time.Second, 6 * time.Second, 5 * time.Second, time.Hour + time.Second, 24*time.Hour + time.Second, 8 * 24 * time.Hour, 40 * 24 * time.Hour},
